@@ -309,7 +309,7 @@ func discharge(m *Machine, h HarnessSpec, rep *HarnessReport, overlay map[string
 		wg.Add(1)
 		go func() {
 			defer wg.Done()
-			z := startSolver(solverBin(), to)
+			z := startSolver(solverFor(m), to)
 			var z2 *solverProc
 			if *solver2 != "" {
 				z2 = startSolver(*solver2, to)
@@ -598,6 +598,18 @@ func kindOf(what string) string {
 
 func assertID(what string) string {
 	return strings.TrimPrefix(what, "assert: ")
+}
+
+// solverFor picks the solver by arithmetic mode: z3 5.1 decides the integer (limb) queries that 4.8.12 does not finish,
+// while 4.8.12 is the faster one on the wide bit-vector queries.
+func solverFor(m *Machine) string {
+	if v := os.Getenv("E1_SOLVER"); v != "" {
+		return v
+	}
+	if m.intMode {
+		return "z3-new"
+	}
+	return "z3"
 }
 
 func solverBin() string {
